@@ -1287,6 +1287,14 @@ class Interp:
 
     def unpack(self, v, n, node=None):
         """tuple-unpack to exactly n values (ValueError otherwise)"""
+        if isinstance(v, SymList):
+            sl = v
+            if n is None:
+                self.unsupported("starred unpack of symbolic sequence", node)
+            ok = Eq(smt.Len(sl.seq), I(n))
+            if self.truth(ok, "unpack"):
+                return [self.lib.elem_value(self, sl, smt.Nth(sl.seq, I(i))) for i in range(n)]
+            self.raise_(ValueError, "unpack: wrong number of values")
         if is_t(v) and not isinstance(v.sort, str) and v.sort[0] == "Seq":
             fl = self.concrete_len(v)
             if fl is not None:
